@@ -145,7 +145,10 @@ def replay(shard, job, prop, timeout):
         pl = panic_line(errf)
         if pl is None:
             raise Infra("%s died without a Go panic (rc=%d): %s" % (tool, p.returncode, tail(errf, 600)))
-        j = json.load(open(journal))
+        try:
+            j = json.load(open(journal))
+        except Exception as ex:
+            raise Infra("%s died and left an unreadable journal (%s): %s" % (tool, ex, tail(errf, 400)))
         merge(total, j["partial"])
         why = "the process died while serving this behaviour: " + pl
         v = j["record"]
@@ -282,8 +285,11 @@ def run_job(job, prop, tier, seed, scratch, ev):
 def confirm(v, scratch):
     """Re-run a violation's steps once in a fresh worker; True if it fails again."""
     if v.get("confirm_cmd"):
-        p = subprocess.run(v["confirm_cmd"], shell=True, cwd=ROOT, env=ENV, capture_output=True, text=True)
-        return p.returncode == 1
+        for _ in range(3):
+            p = subprocess.run(v["confirm_cmd"], shell=True, cwd=ROOT, env=ENV, capture_output=True, text=True)
+            if p.returncode == 1:
+                return True
+        return False
     if "steps" not in v:
         return True
     path = os.path.join(scratch, "confirm-%s.json" % v["hash"])
